@@ -237,10 +237,22 @@ func SafeCheck(p *Prop, raw json.RawMessage) (res Result) {
 	return p.Check(raw)
 }
 
+// orphanWatchdog ends the worker when its parent is gone (a shard killed by the driver while the worker is
+// spinning in a case would otherwise leave a process that loops forever).
+func orphanWatchdog(parent int) {
+	for {
+		time.Sleep(2 * time.Second)
+		if os.Getppid() != parent {
+			os.Exit(97)
+		}
+	}
+}
+
 // WorkerMain is the loop executed by the child process (VERIF_WORKER=1).
 func WorkerMain() {
 	debug.SetMaxStack(256 << 20)
 	go memWatchdog()
+	go orphanWatchdog(os.Getppid())
 	in := bufio.NewReaderSize(os.Stdin, 1<<20)
 	out := bufio.NewWriterSize(os.Stdout, 1<<20)
 	// falco code sometimes prints to stdout; keep the protocol on the real fd 1
